@@ -21,7 +21,7 @@ from vf.xmodel import Schema, Rop
 
 SHARDS = {'quick': 16, 'thorough': 64}
 TIMEOUT = {'quick': 1500, 'thorough': 7200}
-MUST_HIT = ['Count.subtype-supertype-with-two-subtypes', 'Schema.association-number-declared-in-two-separate-runs', 'EarlierObject.rechecked', 'Count.association', 'Count.uniqueness', 'Count.is_consistent', 'Count.restricted-rel',
+MUST_HIT = ['Route.rows-created-before-the-associations', 'Count.subtype-supertype-with-two-subtypes', 'Schema.association-number-declared-in-two-separate-runs', 'EarlierObject.rechecked', 'Count.association', 'Count.uniqueness', 'Count.is_consistent', 'Count.restricted-rel',
             'Count.restricted-kind', 'Count.subtype', 'Cli.main-return', 'Cli.process-exit-status',
             'Cli.exit-status-at-multiple-of-256', 'Count.subtype-after-history', 'Cli.bridgepoint-main', 'Cli.bridgepoint-all-associations-all-classes', 'Cli.bridgepoint-r-k',
             'Cli.bridgepoint-all-associations-k', 'Cli.bridgepoint-r-all-classes', 'Count.null-lowercase-unique_id', 'Count.nonzero-association',
@@ -184,6 +184,36 @@ def load(schema, pop):
                      [t for _, _, t in sqlgen.insert_statements(schema, pop, omit_unset=True)])
     l.input(text)
     return l.build_metamodel(), text
+
+
+def load_batch(schema, pop):
+    '''
+    The same model reached through the API the way Association.batch_relate() is meant to be used: the rows are
+    created while their referential attributes are still ordinary attributes holding the row values (unset = None,
+    as the loader leaves a column that is not named), the associations are defined afterwards, linked by key values
+    and formalized.
+    '''
+    import xtuml
+    m = xtuml.MetaModel(xtuml.IntegerGenerator())
+    for kind, attrs in schema.classes:
+        m.define_class(kind, list(attrs))
+    for kind, name, attrs in schema.uniques:
+        m.define_unique_identifier(kind, name, *attrs)
+    for kind, attrs in schema.classes:
+        for row in pop.rows[kind]:
+            inst = m.new(kind)
+            for a, _ in attrs:
+                setattr(inst, a, row[a])
+    asses = []
+    for r in schema.rops:
+        asses.append(m.define_association(r.rel, r.src, list(r.src_keys), 'M' in r.src_card, 'C' in r.src_card,
+                                          r.src_phrase, r.tgt, list(r.tgt_keys), 'M' in r.tgt_card,
+                                          'C' in r.tgt_card, r.tgt_phrase))
+    for ass in asses:
+        ass.batch_relate()
+    for ass in asses:
+        ass.formalize()
+    return m
 
 
 def compare_counts(ctx, m, st, tag):
@@ -498,9 +528,14 @@ def run(ctx):
             st = State(schema, pop, sqlgen.join(schema, pop))
             case = dict(schema=schema.describe(), rows=pop.rows)
             try:
-                m, text = load(schema, pop)
-                a, u = compare_counts(ctx, m, st, 'loaded')
-                if i % 3 == 0:
+                if i % 4 == 1:
+                    ctx.hit('Route.rows-created-before-the-associations')
+                    m, text = load_batch(schema, pop), None
+                    a, u = compare_counts(ctx, m, st, 'built through the API (rows, then associations, batch_relate)')
+                else:
+                    m, text = load(schema, pop)
+                    a, u = compare_counts(ctx, m, st, 'loaded')
+                if i % 3 == 0 and text is not None:
                     cli_checks(ctx, rng, schema, pop, st, text, tmpdir, process=(i % 120 == 0))
                 log = history(ctx, rng, m, st)
                 case['history'] = log
